@@ -8,6 +8,7 @@ import (
 	"encoding/json"
 	"encoding/pem"
 	"fmt"
+	"math/big"
 	"strings"
 	"time"
 
@@ -58,6 +59,56 @@ func (s *roStorage) GetKeyByIDAndClientID(ctx context.Context, keyID, clientID s
 	return s.reg.GetKeyByIDAndClientID(ctx, keyID, clientID)
 }
 
+// c14FarTime (deep 5): a value for a time claim (iat / exp, in Unix seconds) that lies FAR from the verifier's clock `sec`, besides the
+// +-2 s boundaries of the near dimensions.  The property quantifies over every iat / exp; the monitor judges with exact integers.
+// Go's time.Time comparisons are exact for these values (the seconds of a time.Time are an int64 of their own), but any arithmetic a
+// check does on Durations (int64 nanoseconds) wraps beyond +-292 years - so the far values are chosen around the places where
+// int64 nanoseconds wrap:
+//   pow2      now +- 2^k s, k = 5..62 (2^k * 10^9 ns is a multiple of 2^64 from k = 55 on)
+//   wrap      now +- m * (2^64 / 10^9) s (m int64-nanosecond wraps; m = 1..3, seldom 4 / 10 / 100) + a small delta (inside / at the
+//             edge of / outside the verifier's window)
+//   halfwrap  now +- 2^63 / 10^9 s +- delta (the sign of an int64-nanosecond distance flips)
+//   years     now +- 291 / 292 / 293 / 584 / 585 years (around the +-292.47 years an int64 Duration spans)
+//   edge      year 1 (the zero time.Time, one second around it), year 9999 (last second, first second of 10000), the epoch +- 1 s,
+//             negative Unix times (-1 day, -2^31), 2^32
+func c14FarTime(r *hx.Rand, sec int64) (int64, string) {
+	sign := int64(1)
+	if r.Chance(50) {
+		sign = -1
+	}
+	delta := func() int64 {
+		return int64(hx.Pick(r, 0, 0, 0, 1, -1, 2, -2, 30, -30, 3598, 3599, 3600, 3601, -3599, -3600, -3601, 3700, -3700))
+	}
+	// m wraps of int64 nanoseconds in whole seconds (rounded to nearest)
+	wraps := func(m int64, half bool) int64 {
+		x := new(big.Int).Lsh(big.NewInt(m), 64)
+		if half {
+			x = new(big.Int).Lsh(big.NewInt(m), 63)
+		}
+		x.Add(x, big.NewInt(500000000))
+		x.Div(x, big.NewInt(1000000000))
+		return x.Int64()
+	}
+	switch r.Intn(10) {
+	case 0, 1, 2:
+		k := 5 + r.Intn(58)
+		return sec + sign*(int64(1)<<uint(k)), "pow2"
+	case 3, 4, 5, 6:
+		m := int64(1 + r.Intn(3))
+		if r.Chance(15) {
+			m = int64(hx.Pick(r, 4, 10, 100))
+		}
+		return sec + sign*wraps(m, false) + delta(), "wrap"
+	case 7:
+		return sec + sign*wraps(1, true) + delta(), "halfwrap"
+	case 8:
+		y := int64(hx.Pick(r, 291, 292, 293, 584, 585, 1000))
+		return sec + sign*y*31556952, "years"
+	default:
+		return int64(hx.Pick(r, -62135596800, -62135596799, -62135596801, 253402300799, 253402300800, -1, 1, -86400, -2147483648, 4294967296)), "edge"
+	}
+}
+
 func c14Stream(r *hx.Rand, tier string, n int, w *bufio.Writer) map[string]int {
 	if n == 0 {
 		n = 3000
@@ -103,7 +154,8 @@ func c14Stream(r *hx.Rand, tier string, n int, w *bufio.Writer) map[string]int {
 			aud := hx.Pick(r, []string{issuer}, []string{issuer}, []string{issuer, "x"}, []string{"https://other"}, []string{})
 			offS := int64(offset / time.Second)
 			iat, exp := sec-5, sec+300
-			switch r.Intn(8) {
+			far := ""
+			switch r.Intn(10) {
 			case 0:
 				exp = sec + offS + int64(hx.Pick(r, -2, -1, 0, 1, 2))
 			case 1:
@@ -112,6 +164,16 @@ func c14Stream(r *hx.Rand, tier string, n int, w *bufio.Writer) map[string]int {
 				if maxAge > 0 {
 					iat = sec - int64(maxAge/time.Second) + int64(hx.Pick(r, -2, -1, 0, 1, 2))
 				}
+			case 3: // (deep 5) iat FAR from the verifier's clock
+				iat, far = c14FarTime(r, sec)
+				far = "iat-" + far
+			case 4: // (deep 5) exp FAR from the verifier's clock
+				exp, far = c14FarTime(r, sec)
+				far = "exp-" + far
+			}
+			if far != "" && r.Chance(60) {
+				// everything else about the assertion is in order: the far time claim alone decides
+				iss, sub, kid, signer, alg, aud = "client-A", "client-A", "a1", keys[0], keys[0].Algs[0], []string{issuer}
 			}
 			claims := map[string]any{"iss": iss, "sub": sub, "aud": aud, "iat": iat, "exp": exp}
 			if r.Chance(5) {
@@ -128,6 +190,9 @@ func c14Stream(r *hx.Rand, tier string, n int, w *bufio.Writer) map[string]int {
 				opts = append(opts, op.SubjectCheck(func(*oidc.JWTTokenRequest) error { return nil }))
 				l.S("v.subjcheck", "any")
 			}
+			if far != "" {
+				l.S("far", far)
+			}
 			v := op.NewJWTProfileVerifier(reg, issuer, maxAge, offset, opts...)
 			t0 := time.Now()
 			req, verr := op.VerifyJWTAssertion(context.Background(), tok, v)
@@ -138,9 +203,15 @@ func c14Stream(r *hx.Rand, tier string, n int, w *bufio.Writer) map[string]int {
 			if verr != nil {
 				l.S("obs", "err").S("o.err", hx.ErrName(verr))
 				stats["assertion-"+hx.ErrName(verr)]++
+				if far != "" {
+					stats["assertion-far-"+far+"-"+hx.ErrName(verr)]++
+				}
 			} else {
 				l.S("obs", "ok").S("o.iss", req.Issuer).S("o.sub", req.Subject).L("o.aud", req.Audience).I("o.exp", int64(req.ExpiresAt)).I("o.iat", int64(req.IssuedAt))
 				stats["assertion-ok"]++
+				if far != "" {
+					stats["assertion-far-"+far+"-ok"]++
+				}
 			}
 			emit(l)
 		case "helper":
